@@ -1259,3 +1259,41 @@ V("c14d-kron-block-layout", "C14", {"rule": "C14d", "contains": "mixed-orderings
 V("c14d-kron-pairwise-layout", "C14", "silent",
   (GSTEPS2, "    full_detection_covariance = state._config.hbar * scipy.linalg.block_diag(\n        *[detection_covariance] * len(modes)\n    )\n\n    mean = state.xpxp_mean_vector[indices]",
    "    full_detection_covariance = state._config.hbar * np.kron(\n        np.identity(len(modes)), detection_covariance\n    )\n\n    mean = state.xpxp_mean_vector[indices]"))
+
+# ------------------------------------------------------------------------------------------- C09h / C10f (session 5): the Fock-space recurrence
+NBI = "piquasso/_simulators/connectors/numpy_/interferometer.py"
+GCONN = "piquasso/_simulators/connectors/connector.py"
+PLIN = "piquasso/_simulators/fock/pure/simulation_steps/passive_linear.py"
+V("c09h-generic-rows-from-wrong-table", "C09", {"rule": "C09h", "contains": "numba == generic"},
+  (GCONN, "            first_part_partially_indexed = interferometer[first_nonzero_indices]", "            first_part_partially_indexed = interferometer[first_subspace_indices]"))
+V("c09h-numba-denominator-dropped", "C09", {"rule": "C09h", "contains": "numba == generic"},
+  (NBI, "                    interferometer[first_nonzero_indices[k], j] / denominator\n", "                    interferometer[first_nonzero_indices[k], j]\n"))
+V("c09h-generic-tables-swapped-on-unpack", "C09", {"rule": "C09h", "contains": "numba == generic"},
+  (GCONN, "            subspace_indices = helper_indices[0][n - 2]\n            first_subspace_indices = helper_indices[2][n - 2]\n\n            first_nonzero_indices = helper_indices[1][n - 2]\n            sqrt_occupation_numbers",
+   "            subspace_indices = helper_indices[0][n - 2]\n            first_subspace_indices = helper_indices[1][n - 2]\n\n            first_nonzero_indices = helper_indices[2][n - 2]\n            sqrt_occupation_numbers"))
+V("c09h-generic-previous-level-offset", "C09", {"rule": "C09h", "contains": "level offsets"},
+  (GCONN, "                subspace_representations[n - 1][first_subspace_indices],", "                subspace_representations[n - 2][first_subspace_indices],"))
+V("c09h-numba-single-expression", "C09", "silent",
+  (NBI, "                one_particle_contrib = (\n                    interferometer[first_nonzero_indices[k], j] / denominator\n                )\n", "                row = first_nonzero_indices[k]\n"),
+  (NBI, "                        one_particle_contrib\n                        * sqrt_occupation_numbers[i, j]\n", "                        sqrt_occupation_numbers[i, j]\n                        * interferometer[row, j]\n                        / denominator\n"))
+V("c09h-generic-operands-reordered", "C09", "silent",
+  (GCONN, "                \"ij,kj,kij->ki\",\n                sqrt_occupation_numbers,\n                first_part_partially_indexed,\n                second,",
+   "                \"ab,cab,cb->ca\",\n                sqrt_occupation_numbers,\n                second,\n                first_part_partially_indexed,"))
+V("c10f-row-guard-on-column", "C10", {"rule": "C10f", "contains": "d recurrence / d U"},
+  (PLIN, "            if first_nonzero_index != row_index:", "            if first_nonzero_index != col_index:"))
+V("c10f-chain-term-column-fixed", "C10", {"rule": "C10f", "contains": "d recurrence / d U"},
+  (PLIN, "                        first_subspace_indices[idx], subspace_indices[jdx, kdx]\n", "                        first_subspace_indices[idx], subspace_indices[jdx, col_index]\n"))
+V("c10f-division-dropped", "C10", {"rule": "C10f", "contains": "d recurrence / d U"},
+  (PLIN, "            subspace_grad[idx, jdx] /= sqrt_first_occupation_numbers[idx]\n", "            pass\n"))
+V("c10f-previous-level-offset", "C10", {"rule": "C10f", "contains": "previous level"},
+  (PLIN, "                    previous_subspace_representation = subspace_representations[p - 1]", "                    previous_subspace_representation = subspace_representations[p - 2]"))
+V("c10f-derivative-not-carried", "C10", {"rule": "C10f", "contains": "carried derivative"},
+  (PLIN, "                    previous_subspace_grad = subspace_grad\n", "                    pass\n"))
+V("c10f-upstream-level-shifted", "C10", {"rule": "C10f", "contains": "upstream level"},
+  (PLIN, "                        \"ij,ij\", upstream[p], fallback_np.conj(subspace_grad)", "                        \"ij,ij\", upstream[p - 1], fallback_np.conj(subspace_grad)"))
+V("c10f-factors-reordered-loop-renamed", "C10", "silent",
+  (PLIN, "            for kdx in range(sqrt_occupation_numbers.shape[1]):\n                subspace_grad[idx, jdx] += (\n                    sqrt_occupation_numbers[jdx, kdx]\n                    * interferometer[first_nonzero_indices[idx], kdx]\n                    * previous_subspace_grad[\n                        first_subspace_indices[idx], subspace_indices[jdx, kdx]\n                    ]\n                )",
+   "            for m in range(sqrt_occupation_numbers.shape[1]):\n                carried = previous_subspace_grad[\n                    first_subspace_indices[idx], subspace_indices[jdx, m]\n                ]\n                subspace_grad[idx, jdx] += (\n                    interferometer[first_nonzero_indices[idx], m]\n                    * carried\n                    * sqrt_occupation_numbers[jdx, m]\n                )"))
+V("c10f-guard-as-positive-test", "C10", "silent",
+  (PLIN, "            if first_nonzero_index != row_index:\n                continue\n\n            subspace_grad[idx, jdx] += (\n                previous_subspace_representation[\n                    first_subspace_indices[idx],\n                    subspace_indices[jdx, col_index],\n                ]\n                * sqrt_occupation_numbers[jdx, col_index]\n            )",
+   "            if first_nonzero_index == row_index:\n                subspace_grad[idx, jdx] += (\n                    previous_subspace_representation[\n                        first_subspace_indices[idx],\n                        subspace_indices[jdx, col_index],\n                    ]\n                    * sqrt_occupation_numbers[jdx, col_index]\n                )"))
